@@ -425,7 +425,7 @@ func init() {
 			{World: "rl", Profile: "c13-faults", Quick: 140, Thor: 7000, PerProc: 1},
 			{World: "rl", Profile: "c13i-leadercheck", Quick: 300, Thor: 15000, PerProc: 1, FaultFree: true},
 		},
-		Rule:     "each run = N in {1,2,3,5} shards, 2-3 replicas with real lease election (3 s leases), store local or API-backed, 2-4 upstreams, two gateway client sets; shard function observed for odd byte strings on both sides; 20-90 steps of allocate/acquire RPCs sent to a drawn replica (leader or not), clock advances, and faults: a replica cut off from the API server (leases expire), crash, restart, gateway-replica partitions; leadership is taken in each replica's own view at the boundaries around every call; distinct = distinct trace hash; non-trivial = at least one RPC served and one refused. Profile c13i-leadercheck (one replica whose real election loops never get a lease; bubble + cooperative scheduler over ratelimter.go and leader_elector.go): 4-14 rounds in each of which, per shard, at most one election event (started leading + new-leader report in either order, stopped leading, another leader observed) is delivered through the real elector methods and their callbacks, the periodic leader check runs, and 0-2 allocate/acquire calls arrive, all as sim threads under a drawn statement-level schedule; after a round (one in two, and the last) two undisturbed leader checks run and the in-memory stores must be exactly the led shards; a call whose shard was led at no moment of the call must be refused With the API-backed store, one gain in three is a gain whose started-leading callback is held inside the List call of the store's Load while the stop event (and, one time in two, the new holder's identity) is delivered: the lease was lost while the shard was being loaded",
+		Rule:     "each run = N in {1,2,3,5} shards, 2-3 replicas with real lease election (3 s leases), store local or API-backed, 2-4 upstreams, two gateway client sets; shard function observed for odd byte strings on both sides; 20-90 steps of allocate/acquire RPCs sent to a drawn replica (leader or not), clock advances, and faults: a replica cut off from the API server (leases expire), crash, restart, gateway-replica partitions; leadership is taken in each replica's own view at the boundaries around every call; distinct = distinct trace hash; non-trivial = at least one RPC served and one refused. Profile c13i-leadercheck (one replica whose real election loops never get a lease; bubble + cooperative scheduler over ratelimter.go and leader_elector.go): 4-14 rounds in each of which, per shard, at most one election event (started leading + new-leader report in either order, stopped leading, another leader observed) is delivered through the real elector methods and their callbacks, the periodic leader check runs, and 0-2 allocate/acquire calls arrive, all as sim threads under a drawn statement-level schedule; after a round (one in two, and the last) two undisturbed leader checks run and the in-memory stores must be exactly the led shards; a call whose shard was led at no moment of the call must be refused With the API-backed store, one gain in three is a gain whose started-leading callback is held inside the List call of the store's Load while the stop event (and, one time in two, the new holder's identity) is delivered: the lease was lost while the shard was being loaded. A run of c13i-leadercheck ends by losing every shard still led (two leader checks follow); in the 3 s after that the server may write no rate-limit condition to the API",
 		NeedInst: []string{"pkg/ratelimiter/limiter/ratelimter.go", "pkg/ratelimiter/limiter/elector/leader_elector.go"},
 		Real:     rlReal, Stub: rlStub, Assume: append([]string{"leadership in a replica's own view may overlap with another's for less than a lease under partition: the oracle does not assume a unique leader", "the range/determinism of the shard function over all names is only sampled (a pure function, see DESIGN §6)"}, rlAssume...),
 	})
